@@ -1,5 +1,6 @@
 import Asn1Verif.Uper.Sexpr
 import Asn1Verif.Uper.Impl
+import Asn1Verif.X691.Encode
 /- line protocol, stream `uper` (L2) -/
 namespace Driver.UperStream
 open Asn1Verif Asn1Verif.Uper Asn1Verif.Per Asn1Verif.Text
@@ -57,6 +58,35 @@ def handle (args : List String) : String :=
     | some [t, v] =>
       match tyOfSx t, valOfSx v with
       | some t, some v => if t.consistent then renderOr bitsToString (enc t v) else "inconsistent-descriptor"
+      | _, _ => "bad-op"
+    | _ => "bad-op"
+  | "conf" :: _ :: r =>
+    match rest r with
+    | some [t, v] =>
+      match tyOfSx t, valOfSx v with
+      | some t, some v =>
+        if t.consistent then
+          renderOr bitsToString (enc t v) ++ " x691:" ++
+            (match X691.encode t v with | some b => bitsToString b | none => "none")
+        else "inconsistent-descriptor"
+      | _, _ => "bad-op"
+    | _ => "bad-op"
+  | "xenc" :: _ :: r =>
+    match rest r with
+    | some [t, v] =>
+      match tyOfSx t, valOfSx v with
+      | some t, some v =>
+        (match X691.encode t v with | some b => "ok " ++ bitsToString b | none => "none")
+      | _, _ => "bad-op"
+    | _ => "bad-op"
+  | "xdec" :: _ :: r =>
+    match rest r with
+    | some [t, _, Sx.atom b] =>
+      match tyOfSx t, parseBits b with
+      | some t, some bits =>
+        if t.consistent then
+          renderOr (fun (p : Val × Nat) => valToSx p.1 ++ " " ++ toString p.2) (dec t bits 0)
+        else "inconsistent-descriptor"
       | _, _ => "bad-op"
     | _ => "bad-op"
   | "dec" :: _ :: r =>
